@@ -420,17 +420,27 @@ Family(const std::string &f)
         out.push_back(wave(w1, "G B") + " || " + wave(w2, "G P"));
       }
     }
-  } else if (f == "stay") {
-    // warm-up wave as in `churn`; then long-lived holders (S) next to threads that come and go
+  } else if (f == "stay" || f == "stayh") {
+    // warm-up wave as in `churn`; then long-lived holders (S) next to threads that come and go, with or without a
+    // pausing thread (P) that may exit at any moment; `stayh` also records heartbeats (C15)
+    const std::string g = f == "stayh" ? "G H" : "G";
     std::vector<int> w1(static_cast<size_t>(kCap), 0);
     for (int stayers = 1; stayers <= std::min(kCap, 2); ++stayers) {
-      for (int goers = 2; goers <= 3; ++goers) {
-        if (stayers + goers > 4) continue;
-        std::string w2;
-        for (int i = 0; i < stayers; ++i) w2 += std::string(w2.empty() ? "" : " | ") + "0:G S";
-        for (int i = 0; i < goers; ++i) w2 += " | 0:G";
-        out.push_back(wave(w1, "G B") + " || " + w2);
+      for (int pausers = 0; pausers <= 1; ++pausers) {
+        for (int goers = 1; goers <= 3; ++goers) {
+          if (stayers + pausers + goers > 4 || pausers + goers < 2) continue;
+          std::string w2;
+          for (int i = 0; i < stayers; ++i) w2 += std::string(w2.empty() ? "" : " | ") + "0:" + g + " S";
+          for (int i = 0; i < pausers; ++i) w2 += " | 0:" + g + " P";
+          for (int i = 0; i < goers; ++i) w2 += " | 0:" + g;
+          out.push_back(wave(w1, "G B") + " || " + w2);
+        }
       }
+    }
+    if (kCap == 1) {
+      // without a warm-up wave: the pausing thread is the first owner of the ID
+      out.push_back("0:" + g + " P | 0:" + g + " | 0:" + g + " S");
+      out.push_back("0:" + g + " P | 0:" + g + " | 0:" + g + " S | 0:" + g);
     }
   } else if (f == "pinned") {
     // a client thread that never asks for an ID pins the heartbeat of an exiting thread for a while
